@@ -9,9 +9,16 @@ Stage C  every double input is sent to the Lean driver as its 64 bits; the drive
          of the range is *not* a correspondence failure - it is a range violation, reported by stage D.)
          Second tie: the model with every + and - rounded to binary64 (Lean `roundDouble`, ties to even) must return exactly the
          double the real code returns (value equality; the sign of a zero result is not compared).
+Call forms (call_forms): every way of stating the same request - unit flag omitted / second positional argument / keyword `deg`,
+         spelled True/False, 1/0, np.True_/np.False_, first argument positional or by keyword; input as Python float, Python int,
+         numpy scalar of every integer / float dtype that holds the value, 0-d, 1-d, 2-d array, whole arrays, lists where accepted -
+         must return the double of the Lean model of that request (Model/Angle.lean `yawToHeadingCall` / `headingToYawCall`:
+         degrees by default, radians when the flag is false), and is judged by the property (range, congruence) in the unit the
+         call names; the documented signature `(angle, deg=True)` must bind the second positional parameter to the unit flag.
 Stage D  the property statement itself on the real functions, judged in exact rational arithmetic: range, congruence to a quarter
          turn minus the input, mutual inverse up to a turn, radian variant == degree variant, scalar == array element (bitwise).
 """
+import inspect
 import json
 import math
 import struct
@@ -301,10 +308,213 @@ def misc(ctx):
             ctx.count('deg_python_int')
 
 
+# ---- call forms -----------------------------------------------------------------------------------------------------------------
+# (Lean form, does it mean degrees, [(spelling, positional args after the angle, keyword args)])
+FORMS = [
+    ('omitted', True, [('', (), {})]),
+    ('pos1', True, [('True', (True,), {}), ('1', (1,), {}), ('np.True_', (np.True_,), {}), ('np.int64(1)', (np.int64(1),), {})]),
+    ('pos0', False, [('False', (False,), {}), ('0', (0,), {}), ('np.False_', (np.False_,), {}), ('np.int64(0)', (np.int64(0),), {})]),
+    ('kw1', True, [('deg=True', (), {'deg': True}), ('deg=1', (), {'deg': 1}), ('deg=np.True_', (), {'deg': np.True_}),
+                   ('deg=np.bool_(1)', (), {'deg': np.bool_(1)})]),
+    ('kw0', False, [('deg=False', (), {'deg': False}), ('deg=0', (), {'deg': 0}), ('deg=np.False_', (), {'deg': np.False_}),
+                    ('deg=np.bool_(0)', (), {'deg': np.bool_(0)})]),
+]
+INT_TYPES = [np.int8, np.int16, np.int32, np.int64, np.uint8, np.uint16, np.uint32, np.uint64]
+
+
+def check_signature(ctx, name, f):
+    """The documented parameters are (angle, deg=True), in that order: the second positional parameter is the unit flag.
+    Returns the name of the first parameter (None when the signature cannot be inspected)."""
+    try:
+        sig = inspect.signature(f)
+    except (TypeError, ValueError):
+        ctx.notes.append('%s: signature not inspectable; call forms judged by behaviour only' % name)
+        return None
+    ps = list(sig.parameters.values())
+    pos = [p for p in ps if p.kind in (p.POSITIONAL_ONLY, p.POSITIONAL_OR_KEYWORD)]
+    replay = {'function': name, 'signature': str(sig), 'category': 'signature'}
+    if len(pos) < 2 or pos[1].name != 'deg' or pos[1].kind != pos[1].POSITIONAL_OR_KEYWORD or pos[1].default is pos[1].empty \
+            or pos[0].default is not pos[0].empty:
+        ctx.violation('C19/signature', '%s%s: the documented parameters are (angle, deg=True) - the second positional parameter must '
+                      'be the unit flag `deg` (with a default), so that %s(x, False) is the radian variant; here it is %s'
+                      % (name, sig, name, repr(pos[1].name) if len(pos) > 1 else 'missing'), replay)
+    for p in ps[2:] if len(pos) >= 2 else []:
+        if p.default is p.empty and p.kind not in (p.VAR_POSITIONAL, p.VAR_KEYWORD):
+            ctx.violation('C19/signature', '%s%s: parameter %r has no default, %s(angle) and %s(angle, deg) no longer work'
+                          % (name, sig, p.name, name, name), replay)
+    ctx.count('signature_checked')
+    return pos[0].name if pos and pos[0].kind == pos[0].POSITIONAL_OR_KEYWORD else None
+
+
+def representations(x, deg):
+    """[(label, object)] - the ways of passing the one value x.  Narrower float dtypes make NumPy compute in that dtype,
+    so they are used only where every intermediate result is exactly representable (degrees, integral |x| <= 1080)."""
+    out = [('float', float(x)), ('np.float64', np.float64(x)), ('0-d array', np.array(x)), ('1-d array', np.array([x])),
+           ('2-d array', np.array([[x]])), ('list', [x]), ('tuple', (x,)), ('nested list', [[x]])]
+    if x == math.floor(x) and abs(x) < 2.0 ** 53:
+        i = int(x)
+        out += [('int', i), ('int list', [i])]
+        for t in INT_TYPES:
+            info = np.iinfo(t)
+            if info.min <= i <= info.max:
+                out += [('np.%s' % t.__name__, t(i)), ('%s array' % t.__name__, np.array([i], dtype=t))]
+        if deg and abs(i) <= 1080:
+            for t in (np.float32, np.float16):
+                out += [('np.%s' % t.__name__, t(i)), ('%s array' % t.__name__, np.array([i], dtype=t)),
+                        ('0-d %s array' % t.__name__, np.array(i, dtype=t))]
+    return out
+
+
+def form_values(ctx, n_rand):
+    """Angles for the call-form sweep; every form is applied to every value (270.0 is a fine number of radians too)."""
+    rng = ctx.rng
+    vals = []
+    for k in range(-24, 25):
+        vals += [45.0 * k, k * (math.pi / 4.0)]
+    for b in (90.0, -90.0, 270.0, -270.0, 450.0, 180.0, -180.0, 360.0, math.pi / 2, -math.pi / 2, 3 * math.pi / 2, math.pi, -math.pi,
+              2 * math.pi):
+        vals += neighbours(b, 1)[1:]
+    vals += [0.0, -0.0, 5e-324, -1e-17, 1e-14, 0.1, -0.1, 33.3, -123.456, 1.0, -1.0, 2.0, 100.0, 127.0, -128.0, 128.0, 200.0, 255.0,
+             256.0, 32767.0, -32768.0, 65535.0, 1e6, -1e6, 1000000.5, -999999.25, 2147483647.0, 4294967295.0]
+    for _ in range(n_rand):
+        vals += [rng.uniform(-1080.0, 1080.0), rng.uniform(-20.0, 20.0), float(rng.randrange(-1080, 1081)),
+                 float(rng.randrange(-1000000, 1000001))]
+    seen, out = set(), []
+    for v in vals:
+        if bits(v) not in seen:
+            seen.add(bits(v))
+            out.append(v)
+    return out
+
+
+def show_call(name, label, spelling, kw_first):
+    arg = '<%s>' % label
+    inner = ', '.join(([('%s=%s' % (kw_first, arg))] if kw_first else [arg]) + ([spelling] if spelling else []))
+    return '%s(%s)' % (name, inner)
+
+
+def call_forms(ctx, values):
+    y2h, h2y = impl()
+    funcs = (('yaw_to_heading', 'heading', 'y2h', y2h), ('heading_to_yaw', 'yaw', 'h2y', h2y))
+    first = {name: check_signature(ctx, name, f) for name, _, _, f in funcs}
+    pib = bits(math.pi)
+    lines = []
+    for x in values:
+        for _, _, lf, _ in funcs:
+            for form, _, _ in FORMS:
+                lines.append('anglecall %s %s %s %s' % (lf, pib, form, bits(x)))
+                lines.append('anglecall %s_r %s %s %s' % (lf, pib, form, bits(x)))
+    outs = ctx.driver(lines)
+    model = {}
+    for ln, o in zip(lines, outs):
+        try:
+            n, d = o.split('/')
+            _, lf, _, form, xb = ln.split()
+            model[(lf, form, xb)] = Fraction(int(n), int(d))
+        except Exception:
+            raise fv.InfraError('driver answered %r to %s' % (o[:80], ln))
+    if len(model) != len(lines):
+        raise fv.InfraError('driver answered %d lines to %d requests' % (len(outs), len(lines)))
+    judged = {}
+
+    def judge_one(name, sig, lf, f, form, unit, x, r, text, replay):
+        """r: the double returned for the request (name, form, x).  Judged once per distinct (request, result)."""
+        key = (name, form, bits(x), bits(r))
+        if key in judged:
+            if judged[key]:
+                ctx.violation(judged[key][0], '%s: %s' % (text, judged[key][1]), replay)
+            return
+        judged[key] = None
+        ctx.cov['traces_validated_against_impl'] += 1
+        means = 'degrees' if unit.deg else 'radians'
+        if not math.isfinite(r):
+            judged[key] = ('C19/%s-not-finite' % sig, 'returned %r' % r)
+        else:
+            fr, fx = Fraction(r), Fraction(x)
+            lo = Fraction(0) if sig == 'heading' else -unit.T / 2
+            d = reduce_mod(fr - (unit.Q - fx), unit.T)
+            mdl, mdl_r = model[(lf, form, bits(x))], model[(lf + '_r', form, bits(x))]
+            if not (lo <= fr < lo + unit.T):
+                judged[key] = ('C19/%s-out-of-range' % sig, 'the call asks for %s; %r is outside [%s, %s)'
+                               % (means, r, float(lo), float(lo + unit.T)))
+            elif abs(d) > unit.tol(x):
+                judged[key] = ('C19/%s-not-congruent' % sig, 'the call asks for %s; %r differs from %s - x modulo a turn by %.3e '
+                               '(tolerance %.3e)' % (means, r, '90' if unit.deg else 'pi/2', float(d), float(unit.tol(x))))
+            elif fr != mdl_r:
+                # the same request in its plain form: is it this call form, or the arithmetic, that left the model?
+                try:
+                    ref = float(f(float(x), deg=unit.deg))
+                except Exception:  # noqa
+                    ref = None
+                if ref is not None and Fraction(ref) == mdl_r:
+                    judged[key] = ('C19/call-form-differ', 'returned %r, but the same request written %s(%r, deg=%s) returns %r '
+                                   '(= the Lean model of the call)' % (r, name, float(x), unit.deg, ref))
+                else:
+                    ctx.disagree('%s = %r but the rounded model of the call gives %.17g' % (text, r, float(mdl_r)), replay)
+            if not (lo <= mdl < lo + unit.Tm):
+                ctx.disagree('model result %s of %s outside its proved range' % (mdl, text), replay)
+        if judged[key]:
+            ctx.violation(judged[key][0], '%s: %s' % (text, judged[key][1]), replay)
+
+    def one_call(name, sig, lf, f, form, unit, spelling, pargs, kwargs, label, obj, xs, kw_first):
+        text = show_call(name, label, spelling, kw_first)
+        replay = {'unit': unit.name, 'x_bits': [bits(x) for x in xs[:8]] if len(xs) > 1 else bits(xs[0]), 'x': repr(xs[0]),
+                  'category': 'call-form', 'function': name, 'call': text, 'argument': repr(obj)[:200]}
+        ctx.count('form_%s_%s' % (form, 'kwfirst' if kw_first else 'positional'))
+        try:
+            res = f(*pargs, **dict(kwargs, **{kw_first: obj})) if kw_first else f(obj, *pargs, **kwargs)
+        except TypeError as e:
+            if isinstance(obj, (list, tuple)):
+                ctx.count('sequence_not_accepted')      # plain sequences are not an accepted input (np.ndarray is)
+                return
+            ctx.violation('C19/%s-raised' % name, '%s with x = %r raised TypeError: %s' % (text, xs[0], e), replay)
+            return
+        except Exception as e:  # noqa
+            ctx.violation('C19/%s-raised' % name, '%s with x = %r raised %s: %s' % (text, xs[0], type(e).__name__, e), replay)
+            return
+        try:
+            got = np.asarray(res, dtype=np.float64)
+        except Exception:  # noqa
+            got = None
+        want_shape = np.shape(obj)
+        if got is None or got.shape != want_shape:
+            ctx.violation('C19/array-shape', '%s: argument of shape %s, result %s of shape %s'
+                          % (text, want_shape, type(res).__name__, None if got is None else got.shape), replay)
+            return
+        for x, r in zip(xs, got.reshape(-1)):
+            rep = replay if len(xs) == 1 else dict(replay, x_bits=bits(x), x=repr(x))
+            judge_one(name, sig, lf, f, form, unit, x, float(r), '%s with x = %r' % (text, x), rep)
+
+    for name, sig, lf, f in funcs:
+        for form, deg, spellings in FORMS:
+            unit = DEG if deg else RAD
+            for spelling, pargs, kwargs in spellings:
+                kws = [None] + ([first[name]] if first[name] and not pargs else [])
+                for kw_first in kws:
+                    for x in values:
+                        for label, obj in representations(x, deg):
+                            one_call(name, sig, lf, f, form, unit, spelling, pargs, kwargs, label, obj, [x], kw_first)
+                    # whole arrays: float64 1-D, 2-D, transposed copy, the integral values as an integer array, a list of floats
+                    a = np.array(values, dtype=np.float64)
+                    n2 = len(a) // 2 * 2
+                    ints = [v for v in values if v == math.floor(v) and abs(v) < 2.0 ** 31]
+                    one_call(name, sig, lf, f, form, unit, spelling, pargs, kwargs, 'float64 array', a, values, kw_first)
+                    if n2:
+                        one_call(name, sig, lf, f, form, unit, spelling, pargs, kwargs, '2-d float64 array', a[:n2].reshape(2, -1),
+                                 values[:n2], kw_first)
+                        one_call(name, sig, lf, f, form, unit, spelling, pargs, kwargs, 'Fortran-order 2-d array',
+                                 np.asfortranarray(a[:n2].reshape(2, -1)), values[:n2], kw_first)
+                    if ints:
+                        one_call(name, sig, lf, f, form, unit, spelling, pargs, kwargs, 'int64 array',
+                                 np.array([int(v) for v in ints], dtype=np.int64), ints, kw_first)
+                    one_call(name, sig, lf, f, form, unit, spelling, pargs, kwargs, 'list of floats', list(values), values, kw_first)
+
+
 def run(ctx, n_rand, step_div):
     for unit in (DEG, RAD):
         run_unit(ctx, unit, inputs(ctx, unit, n_rand, step_div))
     misc(ctx)
+    call_forms(ctx, form_values(ctx, max(10, n_rand // 150)))
 
 
 def search(ctx):
@@ -317,7 +527,11 @@ def check(ctx):
                        '[-1080, 1080] with step 1/%d, every multiple of 45 with its 3 nextafter neighbours on each side and +-tiny '
                        'offsets, tiny values (+-0, +-5e-324, +-1e-300, +-1e-17, min normal, +-1e-14, +-3e-14), uniform random in '
                        '[-1080, 1080] and [-1e6, 1e6], log-uniform magnitudes 1e-12..1e6, random integers, neighbours of wrap points '
-                       'thousands of turns away; each as python float, numpy scalar and element of 1-D / 2-D / strided arrays. A case '
+                       'thousands of turns away; each as python float, numpy scalar and element of 1-D / 2-D / strided arrays. Call forms: '
+                       'multiples of 45 deg and of pi/4, wrap-point neighbours, integer-dtype limits and random values, each through '
+                       'every call form (unit flag omitted / positional / keyword; True/False, 1/0, numpy bools; angle positional or '
+                       'by keyword; float, int, every numpy integer/float dtype that holds the value, 0-d/1-d/2-d arrays, whole '
+                       'arrays, lists where accepted) against the Lean model of that call; signature (angle, deg=True). A case '
                        'is non-trivial when a wrap took place (result differs from quarter turn - x by a turn or more) or x is within 8 tolerances of a wrap '
                        'point; distinct = distinct (unit, input bits).' % (32 if ctx.thorough else 8))
     ctx.assumptions += [
@@ -350,8 +564,13 @@ def check(ctx):
 def replay(ctx, path):
     obj = json.load(open(path))
     r = obj['input']
+    xb = r.get('x_bits')
+    if r.get('category') == 'signature':
+        y2h, h2y = impl()
+        check_signature(ctx, r['function'], {'yaw_to_heading': y2h, 'heading_to_yaw': h2y}[r['function']])
+        return fv.finish(ctx, 'proof', None)
     unit = UNITS[r['unit']]
-    xb = r['x_bits']
     xs = [from_bits(b) for b in (xb if isinstance(xb, list) else [xb])]
     run_unit(ctx, unit, [(r.get('category', 'replay'), x) for x in xs], with_id=False)
+    call_forms(ctx, xs)
     return fv.finish(ctx, 'proof', None)
